@@ -1740,10 +1740,7 @@ var safeSet = [utf8.RuneSelf]bool{
 }
 
 func (s *PrintCtx) appendBytes(z []byte) {
-	_, err := s.Write(z)
-	if err != nil {
-		hintInternal(err, "PrintCtx: appendBytes failed")
-	}
+	s.appendQuotedString(string(z))
 }
 
 func (s *PrintCtx) appendStringSlice(val []string) {
